@@ -50,7 +50,8 @@ class _Wks:
 
 class FakeEqTherm:
     """scripted equilibrium: points[x key] = list of (phase name, NP, [mobility per element or None])"""
-    def __init__(self, points, nel=1):
+    def __init__(self, points, nel=1, fn=None):
+        self.fn = fn
         self.elements = (["X", "Y"] if nel == 1 else ["X", "Y", "Z"]) + ["VA"]
         self.numElements = nel + 1
         self.phases = list(ALLPHASES)
@@ -61,7 +62,7 @@ class FakeEqTherm:
         # mobility callables: defined per phase unless every point lists None for that phase
         self.mobCallables = {}
         for ph in ALLPHASES:
-            undefined = any(m is None for pts in points.values() for (n, f, m) in pts if n == ph)
+            undefined = any(m is None for pts in (points or {}).values() for (n, f, m) in pts if n == ph)
             if undefined:
                 self.mobCallables[ph] = None
             else:
@@ -75,14 +76,18 @@ class FakeEqTherm:
 
     def getEq(self, x, T, gExtra=0, phases=None):
         self.ncalls += 1
-        key = round(float(np.atleast_1d(x)[0]), 6)
-        self.current = self.points[key]
         nel = self.numElements
+        if self.fn is not None:
+            self.current, MU = self.fn(np.atleast_1d(x), float(T))
+        else:
+            key = round(float(np.atleast_1d(x)[0]), 6)
+            self.current = self.points[key]
+            MU = [0.0] * nel
         cs = []
         for (n, f, m) in self.current:
             X = np.ones(nel) / nel          # u-fraction of every element = 1/nel in every phase
             cs.append(_CS(n, self.elements[:-1], float(f), X, m))
-        return _Wks(cs, [[0.0] * nel])
+        return _Wks(cs, [MU])
 
     def clearCache(self):
         pass
@@ -178,3 +183,91 @@ def run_point(sc):
     # array has one entry per element of therm.elements[:-1]; both are equal here
     eff = [[None if m[0] is None else m[0] * u] for m in sc["mob"]]
     return out, eff
+
+
+# ------------------------------------------------------------------ HomogenizationModel runs (C04, conservation traces)
+def homog_model_run(cfg):
+    """HomogenizationModel on a scripted two-phase equilibrium: phase fractions and chemical potentials are smooth functions of the
+    composition, mobilities are constants per phase.  Returns Relations events for the C04 clauses."""
+    from kawin.diffusion import HomogenizationModel
+    from kawin.diffusion.DiffusionParameters import BoundaryConditions
+    from kawin.solver.Solver import SolverType
+    from .kwn_drv import cmp3
+    Kmu = cfg.get("Kmu", 2.0e4)
+
+    def fn(x, T):
+        xv = float(x[0])
+        f2 = min(max((xv - 0.2) / 0.6, 0.0), 1.0)                 # fraction of P2 rises from 0 (x <= 0.2) to 1 (x >= 0.8)
+        phases = [("P1", 1 - f2, [4e-22, 2e-22])] + ([("P2", f2, [1e-22, 8e-22])] if f2 > 0 else [])
+        if f2 >= 1:
+            phases = [("P2", 1.0, [1e-22, 8e-22])]
+        return phases, [-Kmu * xv, Kmu * xv]
+    th = FakeEqTherm(None, nel=1, fn=fn)
+    N = cfg.get("N", 12)
+    m = HomogenizationModel([0, 1e-4], N, ["X", "Y"], ["P1", "P2"], thermodynamics=th)
+    m.setTemperature(1000)
+    m.setMobilityFunction(cfg.get("rule", "wiener upper"))
+    m.setIdealEps(cfg.get("eps", 0.05))
+    kind = cfg.get("profile", "step")
+    if kind == "step": m.setCompositionStep(0.3, 0.7, 0.5e-4, "Y")
+    elif kind == "linear": m.setCompositionLinear(0.25, 0.75, "Y")
+    else: m.setCompositionInBounds(0.6, 0.3e-4, 0.6e-4, "Y"); m.compositionProfile.compositionSteps["Y"].insert(0, (m.compositionProfile.LINEAR, (), dict(leftValue=0.3, rightValue=0.3)))
+    bc = cfg.get("bc", ("flux", 0.0, "flux", 0.0))
+    Tm = {"flux": BoundaryConditions.FLUX_BC, "comp": BoundaryConditions.COMPOSITION_BC}
+    m.setBC(Tm[bc[0]], bc[1], Tm[bc[2]], bc[3], "Y")
+    m.useCache(cfg.get("cache", True))
+    rows = []
+
+    class Obs:
+        def updateCoupledModel(self, model):
+            fl, dt = model.getFluxes()
+            rows.append((float(model.t), np.array(model.x[0]).copy(), float(fl[0, 0]), float(fl[0, -1])))
+    ev = [{"e": "init"}]
+    try:
+        m.setup()
+        fl0, _ = m.getFluxes()
+        rows.append((float(m.t), np.array(m.x[0]).copy(), float(fl0[0, 0]), float(fl0[0, -1])))
+        m.addCouplingModel(Obs())
+        it = SolverType.RK4 if cfg.get("iter", "euler") == "rk4" else SolverType.EXPLICITEULER
+        for span in cfg["calls"]:
+            m.solve(span, solverType=it, maxDtFrac=cfg.get("maxfrac", 0.1))
+        minc = m.constraints.minComposition
+        closed = bc[0] == "flux" and bc[2] == "flux" and bc[1] == 0 and bc[3] == 0
+        s0 = float(np.sum(rows[0][1]))
+        for k in range(1, len(rows)):
+            t0, x0, jl, jr = rows[k - 1]
+            t1, x1, _, _ = rows[k]
+            clipped = bool(np.any(x1 <= minc) or np.any(x1 >= 1 - minc))
+            ev.append({"e": "rel", "group": "C04:time-increasing", "name": "row %d" % k, "c": cmp3(t1, t0, rtol=0.0), "want": "gt"})
+            ev.append({"e": "rel", "group": "C04:bounds", "name": "row %d" % k, "c": "eq" if (np.all(x1 >= minc) and np.all(x1 <= 1 - minc)) else "gt", "want": "eq"})
+            if cfg.get("iter", "euler") == "euler" and not clipped:
+                lhs = float(np.sum(x1) - np.sum(x0))
+                rhs = (jl - jr) * (t1 - t0) / m.dz
+                ev.append({"e": "rel", "group": "C04:balance", "name": "row %d" % k, "c": cmp3(lhs, rhs, rtol=1e-6, atol=1e-13 * N), "want": "eq"})
+            if closed and not clipped:
+                ev.append({"e": "rel", "group": "C04:closed-constant", "name": "row %d" % k, "c": cmp3(float(np.sum(x1)), s0, rtol=1e-12), "want": "eq"})
+            # a prescribed boundary flux is the flux the model applies at that boundary
+            if bc[0] == "flux":
+                ev.append({"e": "rel", "group": "C04:flux-bc-honoured", "name": "left row %d" % k, "c": cmp3(jl, float(bc[1]), rtol=1e-12, atol=1e-300), "want": "eq"})
+            if bc[2] == "flux":
+                ev.append({"e": "rel", "group": "C04:flux-bc-honoured", "name": "right row %d" % k, "c": cmp3(jr, float(bc[3]), rtol=1e-12, atol=1e-300), "want": "eq"})
+            if bc[0] == "comp":
+                ev.append({"e": "rel", "group": "C04:dirichlet-fixed", "name": "left row %d" % k, "c": cmp3(float(x1[0]), float(rows[0][1][0]), rtol=1e-13), "want": "eq"})
+            if bc[2] == "comp":
+                ev.append({"e": "rel", "group": "C04:dirichlet-fixed", "name": "right row %d" % k, "c": cmp3(float(x1[-1]), float(rows[0][1][-1]), rtol=1e-13), "want": "eq"})
+    except Exception as ex:  # noqa
+        ev.append({"e": "exception", "msg": "%s: %s" % (type(ex).__name__, str(ex)[:200])})
+    moved = float(np.max(np.abs(rows[-1][1] - rows[0][1]))) if len(rows) > 1 else 0.0
+    return ev, {"steps": len(rows) - 1, "moved": moved}
+
+
+def homog_model_configs():
+    out = []
+    for rule in ("wiener upper", "hashin lower", "lab"):
+        for it in ("euler", "rk4"):
+            out.append(dict(tag="homog-closed-%s-%s" % (rule.replace(" ", ""), it), rule=rule, iter=it, calls=[3.0e5, 2.0e5]))
+    out.append(dict(tag="homog-flux-bc", bc=("flux", 2e-13, "flux", -1e-13), calls=[3.0e5, 3.0e5], profile="linear"))
+    out.append(dict(tag="homog-dirichlet-left", bc=("comp", 0.35, "flux", 0.0), calls=[3.0e5, 3.0e5]))
+    out.append(dict(tag="homog-dirichlet-both-rk4", bc=("comp", 0.35, "comp", 0.65), calls=[4.0e5], iter="rk4", profile="linear"))
+    out.append(dict(tag="homog-bounded-nocache", profile="bounded", cache=False, calls=[2.0e5, 2.0e5], eps=0.0))
+    return out
